@@ -87,7 +87,8 @@ def convert(f, recursive, feats):
     import malt
     with warnings.catch_warnings():
         warnings.simplefilter('ignore')
-        return malt.to_graph(f, recursive=recursive, experimental_optional_features=feats)
+        with vlib.time_limit(90):
+            return malt.to_graph(f, recursive=recursive, experimental_optional_features=feats)
 
 
 def is_for_target_finding(src, a, b):
